@@ -24,7 +24,10 @@ def run_e1(rep, specs, features=(), hook=False):
         if any(v.key == spec.role for v in rep.violations):
             continue
         log("[e1] replaying counterexample of %s natively ..." % ob.name)
-        ok, path, desc = e1.replay(rep.prop, spec, features=features, hook=hook)
+        try:
+            ok, path, desc = e1.replay(rep.prop, spec, features=features, hook=hook)
+        except Exception as ex:  # a failing replay must never crash the check: the obligation stays unreplayed (exit 2)
+            ok, path, desc = False, None, "native replay could not be run: %r" % (ex,)
         ob.detail = (ob.detail or "") + " | replay: " + desc
         if ok:
             rep.violations.append(Violation(rep.prop, ob, path,
